@@ -249,4 +249,200 @@ example : ∃ r, tbEx.astypeBlocks (.list [0, 0, 2]) "f" (fun c => c.map (· + 1
     (fun c => c.map (· + 10)) trivial (by decide)
   exact ⟨r, h1, by rw [h2]; decide, by rw [h3]; decide⟩
 
+/-! ### every key: the statements without `AscendingSafe`
+
+`slice_to_ascending_slice` has been repaired (model `sliceToAscending`; `C04.ascending_same_positions`:
+the ascending slice addresses the same positions, reversed for a negative step), so with
+`retain_key_order=False` a negative-step slice yields the targets of the ascending positions
+(`TB.neg_slice_atgts`), and dropping / mapping only depends on WHICH columns are addressed. -/
+
+/-- no key is excluded any more: a key is ascending-safe or a slice with a negative (or zero) step -/
+theorem ascendingSafe_or_neg (ck : Key) :
+    AscendingSafe ck ∨ ∃ s st, ck = .slice s ∧ s.step = some st ∧ st ≤ 0 := by
+  cases ck with
+  | slice s =>
+    cases hs : s.step with
+    | none => exact Or.inl (Or.inl hs)
+    | some st =>
+      by_cases h : 0 < st
+      · exact Or.inl (Or.inr ⟨st, hs, h⟩)
+      · exact Or.inr ⟨s, st, rfl, hs, by omega⟩
+  | all => exact Or.inl trivial
+  | int i => exact Or.inl trivial
+  | list is => exact Or.inl trivial
+  | mask bs => exact Or.inl trivial
+
+/-- a slice with a non-positive step is not ascending-safe -/
+theorem not_safe_neg (s : PySlice) (st : Int) (hs : s.step = some st) (hst : st ≤ 0) :
+    ¬ AscendingSafe (.slice s) := by
+  rintro (h | ⟨st', h, hp⟩)
+  · rw [hs] at h; cases h
+  · rw [hs] at h; cases h; omega
+
+/-- Dropping columns, EVERY column key (`drop_cols_refines_partial` without `AscendingSafe`): exactly
+    the addressed columns disappear, the others keep order, values, dtypes — also for a negative-step
+    slice such as `[::-1]` or `[2:0:-1]`. -/
+theorem drop_cols_refines (tb : TB α) (h : tb.WF) (ck : Key) (cps : List Nat)
+    (hck : ck.positions tb.ncols = .ok cps) (hne : tb.blocks ≠ []) :
+    ∃ r, tb.drop none (some ck) = .ok r ∧
+      r.cols = dropCols tb.cols cps ∧ r.dtypes = dropCols tb.dtypes cps ∧ r.rows = tb.rows := by
+  obtain ⟨pairs, atgts, hk, ⟨rfl, hok, hsorted, hcover⟩⟩ :=
+    tb.key_atgts_all h ck cps hck
+  obtain ⟨out, hout, hspec⟩ := dropBlocksGo_spec none (tb.covOf cps) 0 tb.blocks atgts
+    (fun t ht => by
+      obtain ⟨h1, b, h2, h3⟩ := hok t ht
+      exact ⟨h1, Nat.zero_le _, b, by simpa using h2, h3⟩)
+    hsorted
+    (fun p _ => by rw [tb.covOf_iff, hcover p])
+  have hrows : ∀ b ∈ out, b.RowsOk tb.rows := by
+    intro b hb c hc
+    have hmem : (b.dt, c) ∈ colsDT out := by
+      simp only [colsDT, List.mem_flatMap]
+      exact ⟨b, hb, List.mem_map.mpr ⟨c, hc, rfl⟩⟩
+    rw [hspec] at hmem
+    obtain ⟨c0, hc0, hx⟩ := dropSpec_mem _ _ _ _ _ hmem
+    simp only [delRows] at hx
+    rw [hx]
+    simp only [List.mem_flatMap] at hc0
+    obtain ⟨b0, hb0, hcb0⟩ := hc0
+    exact h.2 b0 hb0 c0 hcb0
+  obtain ⟨tb', htb'⟩ := fromBlocks_ok out tb.rows tb.rows hrows
+  obtain ⟨_, hcols, hdts⟩ := TB.fromBlocks_spec _ _ _ htb'
+  have hemp : tb.blocks.isEmpty = false := by cases hb : tb.blocks <;> simp_all
+  have hX := tb.dropSpec_eq_dropCols cps (delRows none)
+  refine ⟨{ tb' with rows := tb.rows }, ?_, ?_, ?_, rfl⟩
+  · simp only [drop, hemp, Bool.false_eq_true, if_false, hk, bind, Except.bind, pure, Except.pure, hout, htb']
+  · show tb'.cols = _
+    rw [hcols, ← colsDT_snd, hspec, hX, tb.cols_eq_colsDT, dropCols_map]
+    simp only [List.map_map, dropCols]
+    apply List.map_congr_left
+    intro x _; rfl
+  · show tb'.dtypes = _
+    rw [hdts, ← colsDT_fst, hspec, hX, tb.dtypes_eq_colsDT, dropCols_map]
+    simp only [List.map_map, dropCols]
+    apply List.map_congr_left
+    intro x _; rfl
+
+/-- `[::-1]` addresses every column: nothing is left; `[2:0:-1]` addresses columns 2 and 1 -/
+example : ¬ AscendingSafe (.slice ⟨none, none, some (-1)⟩) ∧
+    (Key.slice ⟨none, none, some (-1)⟩).positions tbEx.ncols = .ok [3, 2, 1, 0] ∧
+    (tbEx.drop none (some (.slice ⟨none, none, some (-1)⟩))).map (fun r => (r.cols, r.dtypes, r.rows))
+      = .ok ([], [], 2) ∧
+    (Key.slice ⟨some 2, some 0, some (-1)⟩).positions tbEx.ncols = .ok [2, 1] ∧
+    (tbEx.drop none (some (.slice ⟨some 2, some 0, some (-1)⟩))).map (fun r => (r.cols, r.dtypes, r.rows))
+      = .ok ([[1, 2], [7, 8]], ["i", "f"], 2) := by
+  refine ⟨not_safe_neg _ (-1) rfl (by decide), by decide, by decide, by decide, by decide⟩
+
+/-- the theorem instantiated at a negative-step slice with a step other than -1 -/
+example : ∃ r, tbEx.drop none (some (.slice ⟨none, none, some (-2)⟩)) = .ok r ∧
+    r.cols = [[1, 2], [5, 6]] ∧ r.dtypes = ["i", "f"] ∧ r.rows = 2 := by
+  obtain ⟨r, h1, h2, h3, h4⟩ := drop_cols_refines tbEx tbEx_wf (.slice ⟨none, none, some (-2)⟩) [3, 1]
+    (by decide) (by decide)
+  exact ⟨r, h1, by rw [h2]; decide, by rw [h3]; decide, h4⟩
+
+/-- `_ufunc_blocks`, EVERY column key (`ufunc_refines_partial` without `AscendingSafe`): the function
+    is applied to exactly the addressed columns, also for a negative-step slice. -/
+theorem ufunc_refines (tb : TB α) (h : tb.WF) (ck : Key) (cps : List Nat) (g : List α → List α)
+    (hck : ck.positions tb.ncols = .ok cps) :
+    ∃ r, tb.ufuncBlocks ck g = .ok r ∧
+      r.cols = tb.cols.mapIdx (fun j c => if j ∈ cps then g c else c) ∧ r.dtypes = tb.dtypes := by
+  obtain ⟨pairs, out, hk, hout, hspec⟩ := tb.mapBlocks_refines_all h ck cps hck
+    (f := fun b => match b with | .d1 t c => .d1 t (g c) | .d2 t cs => .d2 t (cs.map g))
+    (fd := id) (fc := g) ⟨fun _ _ => rfl, fun _ _ => rfl⟩ (fun _ => false) (fun _ => false) (fun _ => rfl)
+  refine ⟨⟨tb.rows, out⟩, ?_, ?_, ?_⟩
+  · simp only [ufuncBlocks, hk, bind, Except.bind]
+    split
+    · rename_i heq
+      cases mapBlocksGo_congr ⟨fun _ _ => rfl, fun _ _ => rfl⟩ ⟨fun _ _ => rfl, fun _ _ => rfl⟩ hout heq
+    · rename_i bs heq
+      cases mapBlocksGo_congr ⟨fun _ _ => rfl, fun _ _ => rfl⟩ ⟨fun _ _ => rfl, fun _ _ => rfl⟩ hout heq
+      rfl
+  · show out.flatMap Block.colsOf = _
+    rw [← colsDT_snd, hspec, tb.cols_eq_colsDT]
+    apply List.ext_getElem?
+    intro j
+    simp only [List.getElem?_map, List.getElem?_mapIdx]
+    cases (colsDT tb.blocks)[j]? with
+    | none => rfl
+    | some x => by_cases hj : j ∈ cps <;> simp [hj]
+  · show out.flatMap (fun b => List.replicate b.width b.dt) = _
+    rw [← colsDT_fst, hspec, tb.dtypes_eq_colsDT]
+    apply List.ext_getElem?
+    intro j
+    simp only [List.getElem?_map, List.getElem?_mapIdx]
+    cases (colsDT tb.blocks)[j]? with
+    | none => rfl
+    | some x => by_cases hj : j ∈ cps <;> simp [hj]
+
+example : ¬ AscendingSafe (.slice ⟨some 2, some 0, some (-1)⟩) ∧
+    (Key.slice ⟨some 2, some 0, some (-1)⟩).positions tbEx.ncols = .ok [2, 1] ∧
+    (tbEx.ufuncBlocks (.slice ⟨some 2, some 0, some (-1)⟩) (fun c => c.map (· + 10))).map
+      (fun r => (r.cols, r.dtypes))
+      = .ok ([[1, 2], [13, 14], [15, 16], [7, 8]], ["i", "f", "f", "f"]) ∧
+    (tbEx.ufuncBlocks (.slice ⟨none, none, some (-1)⟩) (fun c => c.map (· + 10))).map TB.cols
+      = .ok [[11, 12], [13, 14], [15, 16], [17, 18]] := by
+  refine ⟨not_safe_neg _ (-1) rfl (by decide), by decide, by decide, by decide⟩
+
+example : ∃ r, tbEx.ufuncBlocks (.slice ⟨none, none, some (-3)⟩) (fun c => c.map (· + 10)) = .ok r ∧
+    r.cols = [[11, 12], [3, 4], [5, 6], [17, 18]] ∧ r.dtypes = ["i", "f", "f", "f"] := by
+  obtain ⟨r, h1, h2, h3⟩ := ufunc_refines tbEx tbEx_wf (.slice ⟨none, none, some (-3)⟩) [3, 0]
+    (fun c => c.map (· + 10)) (by decide)
+  exact ⟨r, h1, by rw [h2]; decide, by rw [h3]; decide⟩
+
+/-- `_astype_blocks`, EVERY column key (`astype_refines_partial` without `AscendingSafe`): exactly the
+    addressed columns are retyped, also for a negative-step slice. -/
+theorem astype_refines (tb : TB α) (h : tb.WF) (ck : Key) (cps : List Nat) (dt : DT) (cast : List α → List α)
+    (hck : ck.positions tb.ncols = .ok cps) :
+    ∃ r, tb.astypeBlocks ck dt cast = .ok r ∧
+      r.dtypes = tb.dtypes.mapIdx (fun j d => if j ∈ cps then dt else d) ∧
+      r.cols = (tb.cols.zip tb.dtypes).mapIdx (fun j cd => if j ∈ cps ∧ cd.2 ≠ dt then cast cd.1 else cd.1) := by
+  obtain ⟨pairs, out, hk, hout, hspec⟩ := tb.mapBlocks_refines_all h ck cps hck
+    (f := fun b => match b with | .d1 _ c => .d1 dt (cast c) | .d2 _ cs => .d2 dt (cs.map cast))
+    (fd := fun _ => dt) (fc := cast) ⟨fun _ _ => rfl, fun _ _ => rfl⟩
+    (fun b => decide (b.dt = dt)) (fun t => decide (t = dt)) (fun _ => rfl)
+  refine ⟨⟨tb.rows, out⟩, ?_, ?_, ?_⟩
+  · simp only [astypeBlocks, hk, bind, Except.bind]
+    split
+    · rename_i heq
+      cases mapBlocksGo_congr ⟨fun _ _ => rfl, fun _ _ => rfl⟩ ⟨fun _ _ => rfl, fun _ _ => rfl⟩ hout heq
+    · rename_i bs heq
+      cases mapBlocksGo_congr ⟨fun _ _ => rfl, fun _ _ => rfl⟩ ⟨fun _ _ => rfl, fun _ _ => rfl⟩ hout heq
+      rfl
+  · show out.flatMap (fun b => List.replicate b.width b.dt) = _
+    rw [← colsDT_fst, hspec, tb.dtypes_eq_colsDT]
+    apply List.ext_getElem?
+    intro j
+    simp only [List.getElem?_map, List.getElem?_mapIdx]
+    cases (colsDT tb.blocks)[j]? with
+    | none => rfl
+    | some x =>
+      by_cases hj : j ∈ cps <;> by_cases hx : x.1 = dt <;> simp [hj, hx]
+  · show out.flatMap Block.colsOf = _
+    rw [← colsDT_snd, hspec, tb.cols_eq_colsDT, tb.dtypes_eq_colsDT]
+    apply List.ext_getElem?
+    intro j
+    simp only [List.getElem?_map, List.getElem?_mapIdx]
+    rw [List.zip_map']
+    simp only [List.getElem?_map]
+    cases (colsDT tb.blocks)[j]? with
+    | none => rfl
+    | some x =>
+      by_cases hj : j ∈ cps <;> by_cases hx : x.1 = dt <;> simp [hj, hx]
+
+example : ¬ AscendingSafe (.slice ⟨none, none, some (-1)⟩) ∧
+    (Key.slice ⟨none, none, some (-1)⟩).positions tbEx.ncols = .ok [3, 2, 1, 0] ∧
+    (tbEx.astypeBlocks (.slice ⟨none, none, some (-1)⟩) "f" (fun c => c.map (· + 10))).map
+      (fun r => (r.cols, r.dtypes))
+      = .ok ([[11, 12], [3, 4], [5, 6], [7, 8]], ["f", "f", "f", "f"]) ∧
+    (tbEx.astypeBlocks (.slice ⟨some 2, some 0, some (-1)⟩) "z" (fun c => c.map (· + 10))).map
+      (fun r => (r.cols, r.dtypes))
+      = .ok ([[1, 2], [13, 14], [15, 16], [7, 8]], ["i", "z", "z", "f"]) := by
+  refine ⟨not_safe_neg _ (-1) rfl (by decide), by decide, by decide, by decide⟩
+
+example : ∃ r, tbEx.astypeBlocks (.slice ⟨some (-1), none, some (-2)⟩) "z" (fun c => c.map (· + 10)) = .ok r ∧
+    r.dtypes = ["i", "z", "f", "z"] ∧ r.cols = [[1, 2], [13, 14], [5, 6], [17, 18]] := by
+  obtain ⟨r, h1, h2, h3⟩ := astype_refines tbEx tbEx_wf (.slice ⟨some (-1), none, some (-2)⟩) [3, 1] "z"
+    (fun c => c.map (· + 10)) (by decide)
+  exact ⟨r, h1, by rw [h2]; decide, by rw [h3]; decide⟩
+
 end SF.C08
